@@ -76,10 +76,23 @@ def main():
                 rec[k] = prev[k]
         results[sid] = rec
         caught = any(c.get("exit") == 1 for c in rec["checks"].values())
-        print(f"{sid:10s} {'CAUGHT' if caught else 'missed'}  demo(mod)={rec.get('demo_modified_exit')} "
+        rec["kind"] = meta.get("kind", "breaking")
+        if rec["kind"] == "harmless":
+            verdict = "FALSE-ALARM" if caught else ("green" if all(c.get("exit") == 0 for c in rec["checks"].values()) else "ERROR")
+        else:
+            verdict = "CAUGHT" if caught else "missed"
+        rec["verdict"] = verdict
+        print(f"{sid:10s} {verdict}  demo(mod)={rec.get('demo_modified_exit')} "
               f"demo(orig)={rec.get('demo_unmodified_exit')}  " +
               " ".join(f"{p}:exit={c.get('exit')}" for p, c in rec["checks"].items()), flush=True)
-        json.dump(results, open(os.path.join(sd, "RESULTS.json"), "w"), indent=1)
+        # several instances may run in parallel on disjoint ids: merge under a lock
+        import fcntl
+        with open(os.path.join(sd, ".results.lock"), "w") as lk:
+            fcntl.flock(lk, fcntl.LOCK_EX)
+            rp = os.path.join(sd, "RESULTS.json")
+            cur = json.load(open(rp)) if os.path.exists(rp) else {}
+            cur[sid] = rec
+            json.dump(dict(sorted(cur.items())), open(rp, "w"), indent=1)
 
 if __name__ == "__main__":
     main()
